@@ -217,8 +217,18 @@ class Builder:
         for under, forms in (("signed", None), ("unsigned", None), (None, "sdata"), (None, "udata"), (None, "mixed")):
             k = self.r.choice([1, 2, 4])
             attrs = [Attr(AT["name"], FORM["string"], b"E"), Attr(AT["byte_size"], FORM["data1"], k)]
+            via_spec = False
             if under:
-                attrs.append(Attr(AT["type"], FORM["ref4"], self.wrap(self.base_type(ATE[under], k), self.r.choice([[], ["typedef"]]))))
+                tattr = Attr(AT["type"], FORM["ref4"], self.wrap(self.base_type(ATE[under], k), self.r.choice([[], ["typedef"]])))
+                if self.r.random() < 0.35:
+                    # an opaque declaration `enum E : T;` carries the underlying type, the definition refers
+                    # to it with DW_AT_specification: attributes are to be integrated
+                    decl = Die(TAG["enumeration_type"], [Attr(AT["name"], FORM["string"], b"E"), Attr(AT["declaration"], FORM["flag"], 1), tattr])
+                    self.top.append(decl)
+                    attrs.append(Attr(AT["specification"], FORM["ref4"], decl))
+                    via_spec = True
+                else:
+                    attrs.append(tattr)
             et = Die(TAG["enumeration_type"], attrs, has_children=True)
             self.top.append(et)
             for j in range(4):
@@ -261,7 +271,7 @@ class Builder:
                 else:
                     exp = Exp("const-either", values=(bits, signed_of(bits, k)), arith=True)
                 self.add(Die(TAG[tag], [attr, Attr(AT["type"], FORM["ref4"], self.wrap(et, hops))]), exp,
-                         "const_value/%s %#x on enumeration under=%s forms=%s via %s" % (form, bits, under, forms, "+".join(hops) or "direct"), True)
+                         "const_value/%s %#x on enumeration under=%s%s forms=%s via %s" % (form, bits, under, " (through DW_AT_specification)" if via_spec else "", forms, "+".join(hops) or "direct"), True)
 
     def locations(self):
         exprs = [bytes([0x50]), bytes([0x91]) + sleb(-24), bytes([0x03]) + struct.pack("<Q", 0x601040), bytes([0x75, 0x08, 0x9f]), b""]
